@@ -29,8 +29,14 @@
       correspondence check and the oracle only (every clash case compiles with go/types and decodes;
       witness [C20_fixed_member_name_clash]); the full statements - the three main theorems without
       the hypothesis [excl_member_clash S d = false] - are not proved.
-    - [excl_decl_clash] (two generated declarations get the same identifier, or a schema / fragment
-      name is used where Go cannot take it) is a known finding of the code;
+    - [excl_decl_clash] (two generated declarations get the same identifier, or a schema name is
+      used where Go cannot take it) is repaired too ("an enum named like a generated type, a
+      reserved identifier or another enum's constant": the names of enum types and constants are
+      assigned before generation, underscores appended while taken), except for clashes that involve
+      a sel<T><n> helper type, which stay a known finding ([C20_refuted_sel_name_clash]).  As for
+      member names, the repaired generator is proved to agree with the generator of the proofs
+      when nothing clashes ([decl_safe]); with a clash it is covered by the correspondence check and
+      the oracle (witness [C20_fixed_decl_name_clash]);
     - "compiles" is [wf_program]: PARTIAL — it is the modelled part (distinct field names per
       struct, statement groups of every UnmarshalJSON refer to existing fields, every referenced
       type declared, forwarders only to types that have the method; the identifier conditions
@@ -169,13 +175,30 @@ Theorem C20_fixed_member_name_clash :
     (fun p => wf_program p && leaves_agree_norm p ex_schema (hd opM (d_ops docK3)) "K" respK3) = true.
 Proof. exact fixed_member_name_clash. Qed.
 
-(** the known finding decl-name-clash: without [decl_safe] the statement about [wf_program] is false
-    of the current code *)
+(** decl-name-clash (repaired, fix "an enum named like a generated type, a reserved identifier or
+    another enum's constant"): on the generator up to that repair the output is not well formed ... *)
+Theorem C20_refuted_before_fix_decl_name_clash :
+  env schemaK2 docK2 = true /\ excl_member_clash schemaK2 docK2 = false /\ excl_decl_clash schemaK2 docK2 = true /\
+  generated_and (generate no_quirks schemaK2 (doc_valid schemaK2 docK2) docK2) (fun p => negb (wf_program p)) = true.
+Proof. exact refuted_decl_name_clash. Qed.
 
-Theorem C20_refuted_decl_name_clash :
-  env schemaK2 docK2 = true /\ excl_member_clash schemaK2 docK2 = false /\ decl_safe schemaK2 docK2 = false /\
-  generated_and (generate_s schemaK2 (doc_valid schemaK2 docK2) docK2) (fun p => negb (wf_program p)) = true.
-Proof. exact refuted_decl_name_clash_real. Qed.
+(** ... with the repair the clashing declaration gets underscores appended: enum constants that differ
+    in letter case only; an enum named like an <Op>Data type and an enum named string *)
+Theorem C20_fixed_decl_name_clash :
+  env schemaK2 docK2 = true /\ decl_safe schemaK2 docK2 = false /\
+  generated_and (generate_s schemaK2 (doc_valid schemaK2 docK2) docK2)
+    (fun p => wf_program p && leaves_agree p schemaK2 (hd opM (d_ops docK2)) "K" respK2) = true /\
+  env schemaK5 docK5 = true /\ decl_safe schemaK5 docK5 = false /\
+  generated_and (generate_s schemaK5 (doc_valid schemaK5 docK5) docK5)
+    (fun p => wf_program p && leaves_agree p schemaK5 (hd opM (d_ops docK5)) "K" respK5) = true.
+Proof. exact fixed_decl_name_clash. Qed.
+
+(** what remains a known finding (decl-name-clash, now only): a declaration that coincides with a
+    sel<T><n> helper type - here an enum named selQuery0 - is not renamed *)
+Theorem C20_refuted_sel_name_clash :
+  env schemaK8 docK8 = true /\ excl_member_clash schemaK8 docK8 = false /\ decl_safe schemaK8 docK8 = false /\
+  generated_and (generate_s schemaK8 (doc_valid schemaK8 docK8) docK8) (fun p => negb (wf_program p)) = true.
+Proof. exact refuted_sel_name_clash. Qed.
 
 Print Assumptions C20_gen_wf_partial.
 Print Assumptions C20_decl_safe_sufficient.
@@ -194,4 +217,6 @@ Print Assumptions C20_refuted_before_fix_29.
 Print Assumptions C20_refuted_before_fix_union_condition.
 Print Assumptions C20_refuted_before_fix_repeated_key.
 Print Assumptions C20_refuted_before_fix_member_name_clash.
-Print Assumptions C20_refuted_decl_name_clash.
+Print Assumptions C20_refuted_before_fix_decl_name_clash.
+Print Assumptions C20_fixed_decl_name_clash.
+Print Assumptions C20_refuted_sel_name_clash.
